@@ -115,8 +115,8 @@ func init() {
 func init() {
 	propMeta["C07"] = Meta{
 		Level: "exploration",
-		Rule: "Each evaluation is one paired replay: a protocol scenario (session setup, Gennaro, Canetti, Lindell22/BIP-340 signing, DKLs23 with either multiplier, agree-on-random, redistribution, Lindell17 signing; real runners, FIFO schedule, parallel second session) is executed twice or more from the same seed with exactly one controlled difference on the randomness seam of one party position: (sensitivity) another protocol-stage stream for that party, the session stage unchanged; (hidden-source) the same party streams and another process-global crypto/rand; (short-read) the same bytes handed out in reads of 1-5 bytes; (reader-failure) the k-th Read call fails, k spread over the calls of the base run; (cross-session) the two sessions of one run compared; (cross-recipient) the unicasts of one round to different recipients compared. The Lindell17 trusted dealer is paired the same way on the dealt shards (ECDSA shares and Paillier moduli). Non-trivial: every pair. Distinct = scenario x sub-check x party position.",
-		Assumptions: []string{"a byte-string leaf of at least 16 bytes in a message of the varied party must change when that party's stream changes, unless it is listed as derived with a justification (session id echoed by Canetti, identity entry of a zero-sharing vector, DKLs23 public-key share)", "secrets that never influence a message or output (e.g. an unused mask) are invisible to this check"},
+		Rule: "Each evaluation is one paired replay: a protocol scenario (session setup, Gennaro over a threshold structure and over a four-holder CNF structure whose MSP is wider than holders+1, Canetti, Lindell22/BIP-340 signing, DKLs23 with either multiplier, agree-on-random, redistribution, Lindell17 signing; real runners, FIFO schedule, parallel second session) is executed twice or more from the same seed with exactly one controlled difference on the randomness seam of one party position: (sensitivity) another protocol-stage stream for that party, the session stage unchanged; (hidden-source) the same party streams and another process-global crypto/rand; (short-read) the same bytes handed out in reads of 1-5 bytes; (reader-failure) the k-th Read call fails, k spread over the calls of the base run; (cross-session) the two sessions of one run compared; (cross-recipient) the unicasts of one round to different recipients compared. The Lindell17 trusted dealer is paired the same way on the dealt shards (ECDSA shares and Paillier moduli). Non-trivial: every pair. Distinct = scenario x sub-check x party position.",
+		Assumptions: []string{"a byte-string leaf of at least 16 bytes in a message of the varied party must change when that party's stream changes, unless it is listed as derived with a justification (session id echoed by Canetti, identity entry of a zero-sharing vector, DKLs23 public-key share); in the cross-recipient sub-check the coordinates of a CNF (replicated) sub-share legitimately reach several recipients", "secrets that never influence a message or output (e.g. an unused mask) are invisible to this check"},
 		Real: []string{"pkg/mpc/session, dkg/gennaro, dkg/canetti, signatures/schnorr/lindell22, signatures/ecdsa/dkls23 (bbot, softspoken), pkg/ot, pkg/mpc/rvole, commitments, proofs", "signatures/ecdsa/lindell17/keygen/trusted_dealer, pkg/encryption/paillier key generation, pkg/base/nt prime generation"},
 		Stub: append(append([]string{}, commonStub...), "process-global crypto/rand (testing/cryptotest.SetGlobalRandom)"),
 		ExpectedProbes: []string{"random_leaves_changed", "joint_value_changed", "hidden_source_pairs_identical", "short_read_pairs_identical", "reader_failures_injected", "cross_session_values_distinct"},
